@@ -131,8 +131,8 @@ def absent_queries(S, rng, limit=None):
     add(last + last)
     add(bytes([0xFE, 0xFE, 0xFE]))
     if limit and len(out) > limit:
-        keep = out[:6] + rng.sample(out[6:], limit - 6)
-        out = keep
+        head = min(6, limit)
+        out = out[:head] + rng.sample(out[head:], limit - head)
     return out
 
 
@@ -158,7 +158,8 @@ def prefix_patterns(S, rng, limit=None):
     add(bytes([S[-1][0]]))
     add(b"zzzzzzzzzzzzzzzzzzzz")
     if limit and len(out) > limit:
-        out = out[:4] + rng.sample(out[4:], limit - 4)
+        head = min(4, limit)
+        out = out[:head] + rng.sample(out[head:], limit - head)
     return out
 
 
@@ -183,7 +184,8 @@ def substr_patterns(S, rng, limit=None):
     add(b"a")
     add(b"zzzzzz")
     if limit and len(out) > limit:
-        out = out[:4] + rng.sample(out[4:], limit - 4)
+        head = min(4, limit)
+        out = out[:head] + rng.sample(out[head:], limit - head)
     return out
 
 
